@@ -227,24 +227,80 @@ def make_trace_run(cfg):
                 probs.append("recorded iterations %r, expected %r" % (got, full_list))
         elif got != full_list[: len(got)]:
             probs.append("recorded iterations %r are not a prefix of %r" % (got, full_list))
-        for k, e in enumerate(trace):
-            try:
-                t = Tree.from_dict(pickle.loads(pickle.dumps(e["tree"])))
-            except Exception as ex:
-                probs.append("entry %d does not restore: %s" % (k, ex))
-                continue
-            wf = wellformed(t, idxs)
-            if wf:
-                probs.append("entry %d restores to a malformed/incomplete tree: %s" % (k, wf[0]))
-                continue
-            td = TreeJointDistribution(FSCRPDistribution(e["alpha"]))
-            v = float(td.log_p_one(t))
-            if not (abs(v - float(e["log_p_one"])) <= 1e-8 * (1 + abs(v))):
-                probs.append("entry %d (iter %r): recorded log_p_one %.12g, recomputed under recorded alpha %.6g: %.12g" % (k, e["iter"], e["log_p_one"], e["alpha"], v))
+        probs += entry_problems(trace, idxs)
         sig = tuple(oracle.state_key(oracle.abstract(Tree.from_dict(e["tree"]))) for e in trace)
         return probs, len(trace), sig
 
     return run
+
+
+def entry_problems(trace, idxs, label=""):
+    from phyclone.tree import Tree, FSCRPDistribution, TreeJointDistribution
+
+    probs = []
+    for k, e in enumerate(trace):
+        try:
+            t = Tree.from_dict(pickle.loads(pickle.dumps(e["tree"])))
+        except Exception as ex:
+            probs.append("%sentry %d does not restore: %s" % (label, k, ex))
+            continue
+        wf = wellformed(t, idxs)
+        if wf:
+            probs.append("%sentry %d restores to a malformed/incomplete tree: %s" % (label, k, wf[0]))
+            continue
+        td = TreeJointDistribution(FSCRPDistribution(e["alpha"]))
+        v = float(td.log_p_one(t))
+        if not (abs(v - float(e["log_p_one"])) <= 1e-8 * (1 + abs(v))):
+            probs.append("%sentry %d (iter %r): recorded log_p_one %.12g, recomputed under recorded alpha %.6g: %.12g" % (label, k, e["iter"], e["log_p_one"], e["alpha"], v))
+    return probs
+
+
+def wired_case(item):
+    """The whole run() wiring (file loading, per-chain generators, submission, collection, trace writer) for one
+    configuration: every chain's recorded schedule and every entry's self-consistency, read back from the trace file."""
+    import os
+
+    cfg = dict(item)
+    res = {"item": item, "problems": [], "entries": 0, "chains": cfg["chains"]}
+    repo = os.environ.get("VERIF_REPO", "/repo")
+    args = dict(in_file=os.path.join(repo, "examples/data/mixing_small.tsv"), cluster_file=os.path.join(repo, "examples/data/mixing_small_clusters.tsv"),
+                burnin=cfg["burnin"], num_iters=cfg["iters"], num_particles=cfg["N"], thin=cfg["thin"], num_chains=cfg["chains"], seed=cfg["seed"],
+                grid_size=11, print_freq=1000, proposal=cfg["proposal"], concentration_update=cfg["conc_update"], outlier_prob=cfg["outlier_prob"],
+                subtree_update_prob=cfg["subtree_prob"], num_samples_data_point=cfg["n_dp"], num_samples_prune_regraph=cfg["n_prg"])
+    try:
+        S.clear_caches()
+        out = chain.run_wired(args, completion_order=cfg["order"])
+    except Exception as e:
+        res["problems"].append("run() raised %s: %s" % (type(e).__name__, str(e)[:150]))
+        return res
+    want = [i for i in range(cfg["iters"]) if i % cfg["thin"] == 0]
+    if sorted(out) != list(range(cfg["chains"])):
+        res["problems"].append("trace holds chains %r, the run had %d" % (sorted(out), cfg["chains"]))
+    for c in sorted(out):
+        r = out[c]
+        if r.get("chain_num") != c:
+            res["problems"].append("chain stored under key %r reports chain_num %r" % (c, r.get("chain_num")))
+        trace = r["trace"]
+        res["entries"] += len(trace)
+        iters = [e["iter"] for e in trace]
+        if iters[1:] != want:
+            res["problems"].append("chain %d of %d: recorded iterations %r after the burn-in entry; num_iters=%d thin=%d requires %r" % (c, cfg["chains"], iters[1:], cfg["iters"], cfg["thin"], want))
+        idxs = {d.idx for d in r["data"]}
+        res["problems"] += entry_problems(trace, idxs, "chain %d " % c)[:2]
+    return res
+
+
+def wired_items(tier):
+    out = []
+    props = ["bootstrap", "semi-adapted", "fully-adapted"]
+    k = 0
+    for chains, order in ((1, None), (2, [0, 1]), (2, [1, 0]), (3, [2, 0, 1])):
+        for iters, N in ((7, 3), (3, 6), (5, 5)):
+            for thin, burnin in ((1, 0), (2, 2), (3, 1)) if tier == "thorough" or chains > 1 else ((2, 2),):
+                k += 1
+                out.append(tuple(sorted(dict(chains=chains, order=order, iters=iters, N=N, thin=thin, burnin=burnin, seed=11 + k, proposal=props[k % 3], conc_update=bool(k % 2),
+                                             outlier_prob=(0.01 if k % 3 == 0 else 0.0), subtree_prob=(0.5 if k % 4 == 0 else 0.0), n_dp=1 + k % 2, n_prg=1 + (k // 2) % 2).items())))
+    return out
 
 
 def _trace_explore(res, run, policy, bound):
@@ -304,7 +360,8 @@ def main(tier, seed):
     chk.rule = ("tree part: every state of the edit-history BFS: restore via dict / pickle / (every third level) the real gzip trace writer, compare "
                 "names, parents, data, outliers, last-edited clone, index maps, per-clone vectors, log_p, log_p_one; then EVERY enabled edit on original "
                 "and restored tree must agree. trace part: run_phyclone_chain under EnumRNG + virtual clock over iterations x thin x burn-in x time "
-                "limit x concentration update x proposal, 4 default policies at deviation bound 0 and bound 1 on a subset; non-trivial = non-empty tree / "
+                "limit x concentration update x proposal, 4 default policies at deviation bound 0 and bound 1 on a subset; whole-run part: the real run() "
+                "(input files, seeding, submission of 1/2/3 chains to an in-process executor in several completion orders, trace writer) over num_iters x num_particles x thin x burn-in; non-trivial = non-empty tree / "
                 "config with >= 2 distinct recorded traces")
     chk.assumptions = ["after relabel_nodes labels are compared up to renaming (pre-order follows sibling order)", "with a finite time limit the recorded iterations must be a prefix of the multiples of thin",
                        "trace part is deviation-bounded, not exhaustive over random outcomes"]
@@ -327,6 +384,18 @@ def main(tier, seed):
         for pr in r["problems"]:
             chk.violation({"sub": "trace", "what": pr["problems"][0].split(":")[0][:60], "proposal": cfg["proposal"], "conc_update": cfg["conc_update"]},
                           {"config": cfg, "problem": pr}, {"kind": "trace", "config": cfg, "choices": pr["choices"], "policy": pr["policy"]})
+    # the run() wiring around the chains: one chain (in-process path) and several chains (submission path), every completion order class
+    nw = 0
+    for r in pool_imap(wired_case, wired_items(tier), chunksize=1):
+        cfg = dict(r["item"])
+        nw += 1
+        chk.transitions += cfg["chains"]
+        chk.traces_validated += cfg["chains"]
+        chk.bump("trace_entries_checked", r["entries"])
+        chk.nontrivial.add(json.dumps(["wired", cfg], sort_keys=True))
+        for pr in r["problems"][:3]:
+            chk.violation({"sub": "run-wiring", "what": pr.split(":")[0][:50], "chains": cfg["chains"]}, {"config": cfg, "problem": pr}, {"kind": "wired", "config": cfg})
+    chk.note("whole_run_configs", nw)
     chk.note("chain_runs", nexec)
     chk.note("chain_configs", len(items))
     chk.exhaustive = False
@@ -337,6 +406,10 @@ def main(tier, seed):
 def replay(path):
     body = json.load(open(path))
     rp = body["replay"]
+    if rp.get("kind") == "wired":
+        r = wired_case(tuple(sorted(rp["config"].items())))
+        print(r["problems"])
+        return 1 if r["problems"] else 0
     if rp.get("kind") == "trace":
         from mc.enumrng import ScriptedRNG
 
